@@ -8,7 +8,7 @@ from ..cfg import NORMAL, Node, handler_classes
 from ..core import Ctx
 from ..flow import ALL, find_path, names_in
 from ..model import AnalysisError, FunctionInfo, dotted, norm_text
-from .common import (known_null_call, edge_target, handler_exits, handler_nodes, hint_write_nodes, in_handler, is_const, kwarg,
+from .common import (call_keywords, facts_at, known_null_call, edge_target, handler_exits, handler_nodes, hint_write_nodes, in_handler, is_const, kwarg,
                      reachable_from)
 
 EXPLANATION = (
@@ -159,14 +159,21 @@ def r4(ctx: Ctx) -> None:
     it = ctx.fn("transaction.Table._initialize_table")
     g = ctx.cfg(it)
     ctors = [n for n in g.calls() if n.callee and n.callee.kind == "ctor" and n.callee.cls and n.callee.cls.name == "TableMetadata"]
-    with_schema = [c for c in ctors if kwarg(c.ast, "schemas") is not None]
+    kws = {c.id: call_keywords(ctx, it, c) for c in ctors}
+    with_schema = [c for c in ctors if kws[c.id].get("schemas")]
     ok = False
     for c in with_schema:
-        sc = kwarg(c.ast, "schemas")
-        cid = kwarg(c.ast, "current_schema_id")
+        sc = kws[c.id]["schemas"][0]
+        cids = kws[c.id].get("current_schema_id", [])
+        cid = cids[0] if cids else None
         ok = isinstance(sc, ast.List) and "schema" in names_in(sc) and cid is not None and norm_text(cid) == "schema.schema_id"
-        brs = [b for b in g.nodes if b.kind == "branch" and "schema" in b.text and b.id in ctx.dom(it, NORMAL)[c.id]]
-        ok = ok and bool(brs)
+        # the schema is only stored when one was given: the constructor call, or the statement that puts `schemas` into
+        # the keyword dict, is reached under `schema is not None`
+        sites = [c] + [n for n in g.nodes if n.kind == "stmt" and isinstance(n.ast, ast.Assign) and isinstance(n.ast.targets[0], ast.Subscript)
+                       and isinstance(n.ast.targets[0].slice, ast.Constant) and n.ast.targets[0].slice.value == "schemas"]
+        guarded = any(any(pol in ("nonnull", "true") and isinstance(e, ast.Name) and e.id == "schema" for pol, e, _a in facts_at(ctx, it, s_))
+                      for s_ in sites)
+        ok = ok and guarded
     ctx.ob("C18.R4", it, "TableMetadata carries the schema and its id", with_schema[0] if with_schema else None, ok,
            "schemas=[schema], current_schema_id=schema.schema_id under `schema is not None`")
     im = [n for n in g.calls() if any(t.name == "initialize_table" for t in ctx.eff.callees(it, n))]
@@ -212,6 +219,20 @@ def r5(ctx: Ctx) -> None:
     rg = ctx.cfg(rf)
     rets = [n for n in rg.nodes if n.kind == "return" and n.ast.value is not None and not isinstance(n.ast.value, ast.Constant)]  # type: ignore[union-attr]
     rdom = ctx.dom(rf, NORMAL)
-    ok = bool(rets) and all(any(b.kind == "branch" and "fields" in b.text and b.id in rdom[r.id] for b in rg.nodes) for r in rets)
+    rsl_ = ctx.slicer(rf)
+
+    def _selected_by_fields(r: Node) -> bool:
+        if any(b.kind == "branch" and "fields" in b.text and b.id in rdom[r.id] for b in rg.nodes):
+            return True
+        # ... or the value is picked by a comprehension / generator whose filter tests `.fields`
+        org = rsl_.origins(r.ast.value, r.id)  # type: ignore[union-attr]
+        for e in list(org["exprs"]) + [r.ast.value]:  # type: ignore[union-attr]
+            for x in ast.walk(e):
+                if isinstance(x, (ast.GeneratorExp, ast.ListComp)) and any(
+                        isinstance(y, ast.Attribute) and y.attr == "fields" for c in x.generators for i in c.ifs for y in ast.walk(i)):
+                    return True
+        return False
+
+    ok = bool(rets) and all(_selected_by_fields(r) for r in rets)
     ctx.ob("C18.R5", rf, "only schemas with fields are resolved", rets[0] if rets else None, ok,
            "the default empty schema of a schema-less table is never used for writing")
